@@ -73,7 +73,11 @@ CHECKS['C20'] = (
     'reference decoder on every image; byte-code disassembly = EHABI table 4 for every array; regenerated decoder ring / tag dispatch tables checked '
     'against the Spec; correspondence incl. exhaustive short byte-code arrays',
     'Proof: build attributes and ARM unwind entries decode to exactly what is encoded, for all inputs; truncated byte-code operands are exactly IndexError.',
-    'Correspondence-only: model vs code on malformed input, ELFFile section lookup glue, order-independence of the attribute API. Table references wrapping to >= 2^63 are excluded by hypothesis.',
+    'Whole-file forms through C01 (file_attributes_exact incl. by name, file_ehabi_exact with table references resolved by file offset into .ARM.extab placed anywhere, get_ehabi_infos; _generated forms). '
+    'Order-independence is a refinement theorem over a history model (generators keep their own offset; interleaving_irrelevant, answers_independent_of_history, levelwise_eq_nested) — on the code after fix a33f3a2 '
+    '(_make_attributes relied on the shared stream position across yields). Malformed input: unknown tag, sh_size past the file, truncation after any byte -> ELFParseError; well-formed prefix walked exactly. '
+    'Correspondence-only: length fields pointing into the middle of a structure, zero length fields (the Python loops; model outOfFuel), compressed attribute sections, iter_* with a filter. '
+    'Table references wrapping to >= 2^63 are excluded by hypothesis.',
     'DESIGN.md §6 C20')
 
 CHECKS['C08'] = (
@@ -83,19 +87,22 @@ CHECKS['C08'] = (
     'correspondence on Lean-assembled relocatable objects for every machine',
     'Proof: relocation tables decode exactly; RELR expands to the addresses its anchors and bitmaps denote; each supported (machine, type) computes the psABI formula '
     'truncated to the field width and leaves every other byte unchanged; unsupported types, wrong flavour and out-of-range symbols are the relocation error.',
-    'apply_section_eq_std is proved under a symbol-table layout predicate (apply_section_eq_std_layout discharges the st_value hypothesis of the earlier _partial form, which is kept); '
-    'Dynamic.get_relocation_tables (dyn_reloc_tables_exact), find_relocations_for_section and the relocated read of a debug section (read_dwarf_section_relocated) are theorems. '
-    'Correspondence-only: get_dwarf_info glue, malformed tables. R_ARM_CALL/BPF modelled without psABI claim. R_*_NONE within 8 bytes of the section end '
-    'and MIPS64 plain relocations with non-zero type2/type3 are outside WF.',
+    'apply_section_eq_std is proved under a symbol-table layout predicate; whole-file forms through C01 (file_rel_roundtrip, file_relr_eq_std, file_find_relocations_exact with by-name = by-sh_info under '
+    'namesFollowInfo, file_apply_section_eq_std, file_read_dwarf_section_relocated on C11\'s reader). Two boundaries became theorems after repairs: R_*_NONE touches no bytes at any offset (fix efcb092: it used to read '
+    'and rewrite 4/8 bytes and failed near the section end), every MIPS64 composite entry is rejected (fix 202f23a: only R_MIPS_64/RELA was checked). Dynamic.get_relocation_tables without WFDynRelocs: '
+    'missing DT_*SZ / DT_*ENT / DT_PLTREL, bad entry sizes, unmapped tables each have an exact-outcome theorem (a bare StopIteration for a missing size tag: malformed array, documented boundary). '
+    'Correspondence-only: R_ARM_CALL/BPF recipes (no psABI claim), ill-formed UTF-8 section names, sh_link not a symbol table, COMDAT duplicate names (first section by name wins), truncated short reads.',
     'DESIGN.md §6 C08')
 CHECKS['C03'] = (
     'Lean 4 theorems: Elf_Sym round trip (both classes), table enumeration / by-name lookup exact under a layout predicate; T3-translated gnu_hash and elf_hash '
     '= the 32-bit gABI functions for all names; SysV and GNU hash lookup sound and complete on every well-formed table (bloom false positives, bucket and hash|1 '
     'collisions), symbol counts exact; correspondence on Lean-built tables with forced collisions',
     'Proof: symbol tables enumerate exactly; hash lookups return a symbol with the requested name iff one is in the hashed part; counts equal the table length.',
-    'The builders are proved to satisfy WF for every symbol list (buildSysV_wf, buildGnu_wf, buildGnu_perturbed_wf), so the lookup theorems are closed end to end over built tables '
-    'and their file images (…_built, …_built_file, …_image_generated); syminfo iteration and the SHNDX companion table are whole-table theorems. Linked-section type checks and '
-    'malformed inputs are correspondence-only; names are compared as UTF-8 bytes (invalid UTF-8 outside the theorems).',
+    'The builders are proved to satisfy WF for every symbol list (buildSysV_wf, buildGnu_wf, buildGnu_perturbed_wf), so the lookup theorems are closed end to end over built tables. '
+    'Whole-file forms through C01 (symtab_file_exact, sysv/gnu_file_exact, syminfo/shndx_file_exact, by-name incl. .dynsym, SHN_XINDEX companion found by the sh_link scan; _generated forms over the '
+    'regenerated factory) for any byte string carrying a wfZ description. Link guards are theorems over a relaxed domain wfZCore (wrong type -> ELFError; header entry beyond the file -> TypeError as the code '
+    'has it; truncated entry -> ELFParseError; nested links). Names that are not valid UTF-8: Python\'s errors=replace decoding is modelled (Unicode 15 §3.9 maximal subparts) and the reported names / name map / '
+    'SysV lookups are proved for arbitrary name bytes. Correspondence-only: malformed table contents, GNU-hash lookups under ill-formed name bytes (judged by a must/may rule), stray in-file headers with an accepted type, offsets >= 2^63.',
     'DESIGN.md §6 C03')
 
 CHECKS['C01'] = (
@@ -165,9 +172,10 @@ CHECKS['C09'] = (
     'link or by DT_STRTAB through the PT_LOAD map; get_table_offset for the followed tags; num_symbols exact under WFGnu or WFSysV (max-bucket chain walk, GNU precedence); '
     'kernel-checked facts about the four regenerated d_tag tables; 11 struct ties; correspondence on Lean-assembled images with and without section headers',
     'Proof: the dynamic table, its strings and the symbol count recovered through the hash tables are exactly the encoded ones, from the section view and from the segment view.',
-    'segment_view_eq_section_view is proved at full strength over assembled images (the stripped and the full layout of a DynDesc are Spec.ElfDescs; the container accessors are C01\'s '
-    'theorems applied to them), and symbols_exact without the count/st_name hypotheses; the earlier hypothesis-laden forms are kept as …_partial. get_relocation_tables is C08\'s '
-    'dyn_reloc_tables_exact. Correspondence-only: get_symbol_by_name, the no-hash count fallback, the .dynstr by-name fallback and all error behaviour.',
+    'segment_view_eq_section_view and symbols_exact are proved at full strength over assembled images (…_partial forms kept). by_name_exact for both layouts and all three string-table routes (section link, '
+    'DT_STRTAB pointer, .dynstr by name); the no-hash count fallback has its exact value (num_symbols_fallback), the precise condition under which it equals the true count (…_exact_iff) and a counterexample '
+    'theorem (DT_STRSZ lying between the tables: the reader counts 0 of 2 symbols — an estimate by design, not judged as a defect); error side: no string table, unmapped symbol table, DT_SYMENT mismatch '
+    '(fallback path only), table without DT_NULL. Correspondence-only: relocation entries (C08), DynamicSection view of an unterminated table, ill-formed UTF-8 names, GNU-hash count on malformed tables.',
     'DESIGN.md §6 C09')
 CHECKS['C04'] = (
     'Lean 4 theorems: END-TO-END debug_info_exact / debug_types_exact — for every well-formed forest description (units of DWARF 2-5, both formats, every unit type, abbreviation tables '
